@@ -19,6 +19,7 @@ import LinVerif.Model.FixedOffset
 import LinVerif.Model.Stream
 import LinVerif.Model.StreamExt
 import LinVerif.Model.BufAlias
+import LinVerif.Model.EncUtils
 
 namespace LinVerif.Driver.C14
 open LinVerif LinVerif.Bits LinVerif.Varint
@@ -119,6 +120,37 @@ def stepPure (ws : List String) : Option String :=
   | ["b2u", h] => do
     let bs ← unhex h
     some s!"{FixedOffset.byteSlice2Uint32 bs}"
+  | ["hb", n] => do
+    let x ← n.toNat?
+    if x ≥ two32 then none else
+    some s!"{EncUtils.highBits x} {EncUtils.lowBits x}"
+  | ["hlv", hi, lo] => do
+    let hi ← hi.toNat?
+    let lo ← lo.toNat?
+    if hi ≥ two32 ∨ lo ≥ 65536 then none else
+    some s!"{EncUtils.valueWithHighLowBits hi lo}"
+  | "u32b" :: vs => do
+    let vs ← vs.mapM String.toNat?
+    if vs.any (· ≥ two32) then none else
+    some (hex (EncUtils.u32SliceToBytes vs))
+  | "u64b" :: vs => do
+    let vs ← vs.mapM String.toNat?
+    if vs.any (· ≥ two64) then none else
+    some (hex (EncUtils.u64SliceToBytes vs))
+  | ["bu32", h] => do
+    let bs ← unhex h
+    some (" ".intercalate ("n" :: (EncUtils.bytesToU32Slice bs).map toString))
+  | ["bu64", h] => do
+    let bs ← unhex h
+    some (" ".intercalate ("n" :: (EncUtils.bytesToU64Slice bs).map toString))
+  | ["f64b", n] => do
+    let x ← n.toNat?
+    if x ≥ two64 then none else
+    some (hex (EncUtils.float64ToBytes x))
+  | ["bf64", h] => do
+    let bs ← unhex h
+    let v ← EncUtils.bytesToFloat64 bs
+    some s!"{v}"
   | ["mw", n] => do
     let x ← n.toNat?
     if x ≥ two32 then none else
@@ -395,6 +427,7 @@ def stepFe (st : St) (ws : List String) : St × String :=
           | none => bad st
         | "msize", [] => (st, s!"{e.marshalSize}")
         | "size", [] => (st, s!"{e.values.length}")
+        | "empty", [] => (st, showB e.isEmpty)
         | _, _ => bad st
   | _ => bad st
 
@@ -430,14 +463,24 @@ def stepFd (st : St) (ws : List String) : St × String :=
               | .error e => showUErr e)
           | none => bad st
         | "at", [i] => match i.toInt? with
-          | some i => (st, match d.get i with | some v => s!"{v} true" | none => "0 false")
+          | some i =>
+            -- through `Dec.step` (Round 12): the object after a read is what the model says it is
+            let r := d.step (.get i)
+            ({ st with fd := Map.upsert st.fd h r.2 },
+              match r.1 with
+              | .get (some v) => s!"{v} true"
+              | .get none => "0 false"
+              | _ => "bad-op")
           | none => bad st
         | "blk", [i, data] => match i.toInt?, unhex data with
           | some i, some data =>
-            (st, match d.getBlock i data with
-              | .ok b => s!"ok {hex b}"
-              | .error .corruptedIndex => "err corrupted-index"
-              | .error .corruptedRange => "err corrupted-range")
+            let r := d.step (.blk i data)
+            ({ st with fd := Map.upsert st.fd h r.2 },
+              match r.1 with
+              | .blk (.ok b) => s!"ok {hex b}"
+              | .blk (.error .corruptedIndex) => "err corrupted-index"
+              | .blk (.error .corruptedRange) => "err corrupted-range"
+              | _ => "bad-op")
           | _, _ => bad st
         | _, _ => bad st
   | _ => bad st
